@@ -340,15 +340,17 @@ Section Flat.
 
   (** The call: [name] is a template name (blank-free at both ends, no colon, not a parser function), the
       arguments are plain, no hook is installed; written at page level, with full expansion. *)
-  Theorem flat_call name args :
+  Theorem flat_call_at stk name args :
+    (length stk < 100)%nat -> detect_loop (stk ++ [FTemplate name]) = false ->
     strip_i (chars name) = chars name -> existsb (N.eqb 58) name = false ->
     Expand.classify_pf pfnames (Expand.canon_pf pfnames name) = PfNone ->
     forallb plain args = true ->
     o_tfn opts = [] -> o_pfn opts = [] ->
     (forall t, find_tpl lib name = Some t -> flat_body (t_body t) = true) ->
     exists F, forall fuel, (F <= fuel)%nat ->
-      expand_T fuel [FTitle] true (chars name :: args) = Some (result_of lib name args).
+      expand_T fuel stk true (chars name :: args) = Some (result_of lib name args).
   Proof.
+    intros Hdepth Hloop.
     intros Hstrip Hcolon Hpf Hargs Htfn Hpfn Hbody.
     set (ht := bind_args args 1 []).
     assert (Hht : values_plain ht = true) by (apply bind_plain; [exact Hargs | reflexivity]).
@@ -357,12 +359,12 @@ Section Flat.
                   | None => 0%nat end).
     exists (length name + fold_right (fun a n => (length a + n)%nat) 0%nat args + length args + bsize + 10)%nat.
     intros fuel Hf. destruct fuel as [|f]; [lia|].
-    rewrite expand_T_S. replace (Nat.leb 100 (length [FTitle])) with false by reflexivity.
+    rewrite expand_T_S. replace (Nat.leb 100 (length stk)) with false by (symmetry; apply Nat.leb_gt; exact Hdepth).
     rewrite (expand_recurse_plain pfnames lib opts (chars name) (plain_chars name)) by (unfold chars; rewrite map_length; lia).
     cbv beta iota zeta. rewrite Hstrip, codes_chars.
     rewrite (no_colon_index name 0 Hcolon).
     rewrite Hpf. rewrite Hcolon. cbn [negb andb].
-    replace (detect_loop ([FTitle] ++ [FTemplate name])) with false by reflexivity.
+    rewrite Hloop.
     rewrite (build_args_flat args Hargs) by lia. fold ht.
     rewrite Htfn, Hpfn. cbn [hook_ret find].
     unfold result_of. fold ht.
@@ -378,11 +380,41 @@ Section Flat.
     - cbn. reflexivity.
   Qed.
 
+  (* at page level *)
+  Theorem flat_call name args :
+    strip_i (chars name) = chars name -> existsb (N.eqb 58) name = false ->
+    Expand.classify_pf pfnames (Expand.canon_pf pfnames name) = PfNone ->
+    forallb plain args = true ->
+    o_tfn opts = [] -> o_pfn opts = [] ->
+    (forall t, find_tpl lib name = Some t -> flat_body (t_body t) = true) ->
+    exists F, forall fuel, (F <= fuel)%nat ->
+      expand_T fuel [FTitle] true (chars name :: args) = Some (result_of lib name args).
+  Proof. apply flat_call_at; [cbn; lia | reflexivity]. Qed.
+
   (* ... and that is MediaWiki's result whenever no bound value ends in a line break *)
   Theorem flat_call_mediawiki name args t :
     find_tpl lib name = Some t -> no_trailing_nl (bind_args args 1 []) = true ->
     result_of lib name args = mw_result_of lib name args.
   Proof. intros Ht Hn. unfold result_of, mw_result_of. rewrite Ht, (subst_same _ _ Hn). reflexivity. Qed.
+
+  (* the result does not depend on where the call is expanded: inside a Lua callback (frame:expandTemplate builds the
+     same call and expands it under a longer expansion path) it is what the call gives on the page *)
+  Theorem flat_call_anywhere stk name args :
+    (length stk < 100)%nat -> detect_loop (stk ++ [FTemplate name]) = false ->
+    strip_i (chars name) = chars name -> existsb (N.eqb 58) name = false ->
+    Expand.classify_pf pfnames (Expand.canon_pf pfnames name) = PfNone ->
+    forallb plain args = true ->
+    o_tfn opts = [] -> o_pfn opts = [] ->
+    (forall t, find_tpl lib name = Some t -> flat_body (t_body t) = true) ->
+    exists F, forall fuel, (F <= fuel)%nat ->
+      expand_T fuel stk true (chars name :: args) = expand_T fuel [FTitle] true (chars name :: args) /\
+      expand_T fuel stk true (chars name :: args) = Some (result_of lib name args).
+  Proof.
+    intros Hd Hl H1 H2 H3 H4 H5 H6 H7.
+    destruct (flat_call_at stk name args Hd Hl H1 H2 H3 H4 H5 H6 H7) as [F HF].
+    destruct (flat_call name args H1 H2 H3 H4 H5 H6 H7) as [G HG].
+    exists (F + G)%nat. intros fuel Hf. rewrite (HF fuel) by lia. rewrite (HG fuel) by lia. split; reflexivity.
+  Qed.
 
   Lemma plain_chars_codes e : plain e = true -> chars (codes e) = e.
   Proof.
